@@ -1433,10 +1433,12 @@ def oracle_c15(ctx, focus):
                 if int(c) > bound:
                     failures.append(fail(r.split("\t")[3][:300], "returned %s after consuming %s tokens" % (o, c), "at most %d (second number after it starts at %s)" % (bound, later[1] if len(later) >= 2 else "-"), [r], what="look-ahead"))
             # hints
-            nonskipped = [j for j, tk in enumerate(toks) if not _is_skipped_text(tk["text"])]
+            # a token that declares itself not a number part is never skipped (it ends the number even if it is
+            # whitespace or a lone hyphen) and is never inside an occurrence — no exception
+            nonskipped = [j for j, tk in enumerate(toks) if tk["nan"] or not _is_skipped_text(tk["text"])]
             for (s, e) in map(_span, occs):
                 for j in range(s, e):
-                    if toks[j]["nan"] and not _is_skipped_text(toks[j]["text"]):
+                    if toks[j]["nan"]:
                         failures.append(fail(r.split("\t")[3][:300], "token %d (not a number part) inside occurrence %d-%d" % (j, s, e), "outside every occurrence", [r], what="nan-hint"))
             prev = None
             sep_positions = []
